@@ -81,6 +81,21 @@ theorem C10_no_tear (s0 s1 s2 : State) (h0 : Reachable s0) (h01 : Steps s0 s1) (
   · rw [hsnap, he2]; simp
   · rw [hsnap, he2]; simp
 
+/-- A partition id never comes to denote different rows: if a query's snapshot holds partition `p` (taken in state `s`)
+    and at any later time the table has a partition with the same id, it has the same rows at the same offset — under
+    every interleaving, across any number of flushes and compactions.  (The catalogue and the partition files are keyed
+    by this id: a later reload by id cannot return another partition's rows.) -/
+theorem C10_partition_identity_stable (s s' : State) (h : Reachable s) (hs : Steps s s') (t : Nat)
+    (p p' : Part) (hp : p ∈ (s.tabs t).parts) (hp' : p' ∈ (s'.tabs t).parts) (hid : p.id = p'.id) :
+    p'.batches = p.batches ∧ p'.offset = p.offset := by
+  have hi := (Inv_reachable h).tab t
+  rcases (TStep_steps hs t).2 p' hp' with ⟨q, hq, hsame⟩ | hge
+  · have : q = p := eq_of_nodup_ids hi.ids_nodup hq hp (hsame.1.trans hid.symm)
+    subst this
+    exact ⟨hsame.2.1.symm, hsame.2.2.symm⟩
+  · have := hi.ids_lt p hp
+    omega
+
 /-! ### Non-vacuity and sensitivity (concrete runs of the same `apply`) -/
 
 /-- request 7 → tables 0 and 1; flush parked after batching table 0; request 8 → table 0; compaction later. -/
@@ -92,18 +107,17 @@ def demoActs : List Act :=
 example : (run init demoActs).map (fun s => (content (snapshot (s.tabs 0)), (s.tabs 0).parts.map (fun p => (p.id, p.offset, p.len)), (s.tabs 0).acked))
     = some ([⟨7, [10, 11]⟩, ⟨8, [12]⟩], [(2, 0, 3)], 2) := by decide
 
-example : Reachable ((run init (demoActs.take 9)).get (by decide)) := by
-  have : ∀ (as : List Act) (s s' : State), Steps init s → run s as = some s' → Steps init s' := by
-    intro as
-    induction as with
-    | nil => intro s s' hs h; simp [run] at h; subst h; exact hs
-    | cons a as ih =>
-      intro s s' hs h
-      simp only [run] at h
-      cases ha : apply s a with
-      | none => simp [ha] at h
-      | some s1 => simp [ha] at h; exact ih s1 s' (Steps.step hs a ha) h
-  exact this _ init _ (Steps.refl _) (Option.eq_some_of_isSome _ |>.symm ▸ rfl)
+/-- Every prefix of the demo run is a reachable state, so the theorems above apply to it (in particular to the state the
+    `.snapshot 0` step observes: flush parked after batching table 0, request 8 half-way through). -/
+example : ∀ k s, run init (demoActs.take k) = some s → Reachable s := fun k s h => reachable_of_run _ s h
+example : (run init (demoActs.take 9)).isSome = true := by decide
+example : (run init (demoActs.take 9)).map (fun s => (content (snapshot (s.tabs 0)), (s.tabs 0).acked, (s.tabs 0).log.length))
+    = some ([⟨7, [10, 11]⟩, ⟨8, [12]⟩], 1, 2) := by decide
+
+/-- `C10_partition_identity_stable` on the demo run: partition 0 as seen by the parked query (after 6 steps) is gone after the
+    compaction (replaced by partition 2), partition ids 0 and 1 are not reused. -/
+example : ((run init (demoActs.take 6)).map fun s => (s.tabs 0).parts.map (·.id)) = some [0] ∧
+          ((run init demoActs).map fun s => (s.tabs 0).parts.map (·.id)) = some [2] := by decide
 
 /-- Sensitivity: if `Table::batch` released the frozen-buffer lock before inserting the partition (take, then insert, as
     two steps), the intermediate state — which a snapshot could then observe — loses the frozen rows. -/
@@ -130,9 +144,9 @@ example :
 /-! ## Second half: the query's column lookups do not fail because of the concurrent activity -/
 
 /-- The full claim: at every point of a partition object's life every column lookup succeeds, and the flush thread can
-    read the handles of the partition it just registered.  The code does not provide this (see the two `_refuted`
-    theorems): nothing keeps the catalogue entry of a partition in step with the table map, and queries may add
-    placeholder handles to a partition the flush thread is about to read. -/
+    obtain the columns of the partition it just registered.  The code does not provide the first part (see the
+    `_refuted` theorems): nothing keeps the catalogue entry of a partition in step with the table map and with the
+    snapshots that still hold the partition. -/
 def C10_query_steps_statement : Prop :=
   ∀ p, PReach p → (∀ c, ∃ r, getCols p c = .ok r) ∧ (∃ p', flushHandles p = .ok p')
 
@@ -145,64 +159,61 @@ theorem C10_query_steps_ok_partial (p : PState) (c : Nat)
          (lookup c p.cols = none ∧ p.ephemeral = true) ∨
          (p.phase.inCatalogue = true ∧ p.phase.filesExist = true)) :
     ∃ r, getCols p c = .ok r := by
-  unfold getCols
   rcases h with h | h | ⟨h, he⟩ | ⟨h1, h2⟩
-  · rw [h]; exact ⟨_, rfl⟩
-  · rw [h]; exact ⟨_, rfl⟩
-  · rw [h]; simp only [he, if_true]; exact ⟨_, rfl⟩
-  · cases hl : lookup c p.cols with
-    | some hd =>
-      cases hd with
-      | resident => exact ⟨_, rfl⟩
-      | empty => exact ⟨_, rfl⟩
-      | nonresident =>
-        simp only [getOrLoad, h1, h2, Bool.not_true, Bool.false_eq_true, if_false]
-        split <;> exact ⟨_, rfl⟩
-    | none =>
-      simp only
-      split
-      · exact ⟨_, rfl⟩
-      · simp only [h1, Bool.not_true, Bool.false_eq_true, if_false]
-        split
-        · exact ⟨_, rfl⟩
-        · simp only [getOrLoad, h1, h2, Bool.not_true, Bool.false_eq_true, if_false]
-          split <;> exact ⟨_, rfl⟩
+  · unfold getCols; rw [h]; exact ⟨_, rfl⟩
+  · unfold getCols; rw [h]; exact ⟨_, rfl⟩
+  · unfold getCols; rw [h]; simp only [he, if_true]; exact ⟨_, rfl⟩
+  · exact getCols_catalogued_ok h1 h2 c
 
-/-- The flush side: a freshly batched partition visited (any number of times, by any number of queries) only for
-    columns it has keeps all its handles resident, and `flush_table_buffer` reads them without fault. -/
-theorem C10_flush_handles_ok_partial (cs : List Nat) (visits : List Nat) (hv : ∀ c ∈ visits, c ∈ cs) :
-    ∃ p, prun (bornByBatch cs) (visits.map PAct.getCols) = .ok p ∧
-         ∃ p', flushHandles p = .ok p' ∧ p'.phase = .handlesRead := by
-  have key : ∀ (visits : List Nat) (p : PState), FreshOk cs p → p.phase = .fresh → (∀ c ∈ visits, c ∈ cs) →
-      prun p (visits.map PAct.getCols) = .ok p := by
-    intro visits
-    induction visits with
-    | nil => intro p _ _ _; rfl
-    | cons c rest ih =>
-      intro p hp hph hv
-      simp only [List.map_cons, prun, papply]
-      rw [getCols_present hp (hv c (List.mem_cons_self ..))]
-      exact ih p hp hph (fun c hc => hv c (List.mem_cons_of_mem _ hc))
-  refine ⟨bornByBatch cs, key visits _ (FreshOk_born cs) rfl hv, _, ?_, rfl⟩
-  exact flushHandles_ok_of_allResident rfl (FreshOk_born cs).allRes
+/-- One whole `get_cols` call (any set of columns, as issued by a query or by compaction) on a partition that is in the
+    catalogue with its files — whatever is resident, evicted or never loaded — succeeds. -/
+theorem C10_query_cols_ok_catalogued_partial (p : PState) (cs : List Nat)
+    (h1 : p.phase.inCatalogue = true) (h2 : p.phase.filesExist = true) : ∃ p', getColsMany p cs = .ok p' :=
+  getColsMany_catalogued_ok h1 h2 cs
 
-/-- Refutation 1 (finding `c10-fresh-partition-placeholder`, DESIGN §8 #18): a query for a column the freshly batched
-    partition lacks, placed between `Table::batch` and `clone_column_handles`, succeeds itself but leaves a placeholder
-    handle on which the flush thread's `try_get().unwrap()` faults (the pool job dies, the fan-in waits forever). -/
-theorem C10_flush_handles_refuted :
-    ∃ p, PReach p ∧ flushHandles p = .error .unwrap := by
-  refine ⟨{ bornByBatch [0] with cols := [(0, .resident), (1, .empty)] }, ?_, by decide⟩
-  exact PReach.step (PReach.born (Born.batch [0])) (.getCols 1) (by decide)
+/-- One whole `get_cols` call on an ephemeral partition (buffer / frozen-buffer view of a snapshot, or a partition made by
+    `Table::batch`) none of whose columns has been evicted succeeds in EVERY phase (registered, persisted, compacted away,
+    catalogue entry gone, files deleted), and so does every later one. -/
+theorem C10_query_cols_ok_ephemeral_partial (p : PState) (cs : List Nat)
+    (he : p.ephemeral = true) (hn : ∀ kh ∈ p.cols, kh.2 ≠ Handle.nonresident) : ∃ p', getColsMany p cs = .ok p' := by
+  obtain ⟨p', h, _⟩ := getColsMany_ephemeral_ok he hn cs
+  exact ⟨p', h⟩
 
-/-- Refutation 2 (finding `c10-compacted-partition-not-in-catalogue`): between `Table::compact` and the catalogue update
-    of `prepare_compact` the merged partition is visible to new snapshots but unknown to the catalogue; a lookup of a
+/-- The flush side (full, since the fix of finding `c10-fresh-partition-placeholder`): whatever queries and evictions did
+    to the handle map of the partition `Table::batch` just registered — any history at all — `flush_table_buffer` obtains
+    its columns without fault … -/
+theorem C10_flush_handles_ok (p : PState) :
+    ∃ p', flushHandles p = .ok p' ∧ (p.phase = .fresh → p'.phase = .handlesRead) := by
+  unfold flushHandles
+  split
+  · exact ⟨_, rfl, fun _ => rfl⟩
+  · rename_i h; exact ⟨_, rfl, fun h' => absurd h' h⟩
+
+/-- … and the columns it persists are exactly the columns the partition was made from, after ANY fault-free history of
+    lookups (placeholders), evictions and flush steps. -/
+theorem C10_flush_persists_born_columns (cs : List Nat) (as : List PAct) (p : PState)
+    (h : prun (bornByBatch cs) as = .ok p) : flushedCols p = cs := by
+  unfold flushedCols; rw [prun_fileCols h]; rfl
+
+/-- Regression witness for the fixed finding (DESIGN §8 #18): with the old code — handles read AFTER the partition was
+    registered — a query for a column the fresh partition lacks, placed between `Table::batch` and the read, left a
+    placeholder on which `try_get().unwrap()` faulted (pool job dies, fan-in waits forever); so did an eviction. -/
+example : (prun (bornByBatch [0]) [.getCols 1]).bind flushHandlesOld = .error .unwrap := by decide
+example : (prun (bornByBatch [0]) [.evict 0]).bind flushHandlesOld = .error .unwrap := by decide
+example : (prun (bornByBatch [0]) [.getCols 1, .evict 0]).bind flushHandles = .ok { bornByBatch [0] with phase := .handlesRead, cols := [(0, .nonresident), (1, .empty)] } := by decide
+/-- … and the smaller repair "skip handles without a column" would silently drop an evicted column from the file. -/
+example : (prun (bornByBatch [0, 1]) [.evict 1]).map flushedColsSkipping = .ok [0] ∧
+          (prun (bornByBatch [0, 1]) [.evict 1]).map flushedCols = .ok [0, 1] := by decide
+
+/-- Refutation 1 (finding `c10-uncatalogued-partition-lookup`): between `Table::compact` and the catalogue update of
+    `prepare_compact` the merged partition is visible to new snapshots but unknown to the catalogue; a lookup of a
     column without a handle indexes the missing entry. -/
 theorem C10_query_steps_refuted_swapped :
     ∃ p c, PReach p ∧ getCols p c = .error .index :=
-  ⟨bornByCompact [0], 1, PReach.born (Born.compact [0]), by decide⟩
+  ⟨bornByCompact [0, 2], 1, PReach.born (Born.compact [0, 2]), by decide⟩
 
-/-- Refutation 3 (DESIGN §8 #19): a query still holding a compacted-away partition whose column was evicted before the
-    swap asks the catalogue for an entry `prepare_compact` has removed. -/
+/-- Refutation 2 (same finding, DESIGN §8 #19): a query still holding a compacted-away partition whose column was evicted
+    before the swap asks the catalogue for an entry `prepare_compact` has removed. -/
 theorem C10_query_steps_refuted_uncatalogued :
     ∃ p c, PReach p ∧ getCols p c = .error .index := by
   refine ⟨{ restored [0] with phase := .uncatalogued, cols := [(0, .nonresident)], loadedFlag := true }, 0, ?_, by decide⟩
@@ -212,17 +223,29 @@ theorem C10_query_steps_refuted_uncatalogued :
   have h3 : PReach _ := PReach.step h2 .remove (p' := { restored [0] with phase := .removed, cols := [(0, .nonresident)], loadedFlag := true }) (by decide)
   exact PReach.step h3 .uncatalogue (by decide)
 
+/-- Refutation 3 (same finding): a column of the partition `Table::batch` just registered is evicted before the partition
+    reaches the catalogue; the next query's reload indexes the missing entry. -/
+theorem C10_query_steps_refuted_unpersisted_evicted :
+    ∃ p c, PReach p ∧ getCols p c = .error .index :=
+  ⟨{ bornByBatch [0] with cols := [(0, .nonresident)] }, 0,
+   PReach.step (PReach.born (Born.batch [0])) (.evict 0) (by decide), by decide⟩
+
 /-- Hence the full claim does not hold of the code as modelled. -/
 theorem C10_query_steps_refuted : ¬ C10_query_steps_statement := by
   intro h
-  obtain ⟨p, hp, hf⟩ := C10_flush_handles_refuted
-  obtain ⟨_, ⟨p', hp'⟩⟩ := h p hp
-  rw [hf] at hp'
-  cases hp'
+  obtain ⟨p, c, hp, hf⟩ := C10_query_steps_refuted_swapped
+  obtain ⟨r, hr⟩ := (h p hp).1 c
+  rw [hf] at hr
+  cases hr
 
 /-- Non-vacuity of the partial theorems' hypotheses. -/
 example : ∃ r, getCols (bornByBatch [0, 1]) 1 = .ok r := C10_query_steps_ok_partial _ _ (Or.inl (by decide))
 example : ∃ r, getCols { restored [0] with phase := .removed } 5 = .ok r :=
   C10_query_steps_ok_partial _ _ (Or.inr (Or.inr (Or.inr ⟨rfl, rfl⟩)))
+example : ∃ p', getColsMany { restored [0, 3] with phase := .removed } [3, 1, 7] = .ok p' :=
+  C10_query_cols_ok_catalogued_partial _ _ rfl rfl
+example : ∃ p', getColsMany { bornByBatch [0, 3] with phase := .deleted } [3, 1, 7] = .ok p' :=
+  C10_query_cols_ok_ephemeral_partial _ _ rfl (by decide)
+example : flushedCols ((prun (bornByBatch [0, 3]) [.getCols 9, .evict 3, .flushHandles, .persist, .getCols 3]).toOption.getD (restored [])) = [0, 3] := by decide
 
 end LM.C10
